@@ -395,6 +395,8 @@ def plain_ref(u):
         s = urlsplit(u)
     except ValueError:
         return False
+    if re.search(r'(^|/)\.{1,2};', s.path):
+        return False          # '.;x': a dot segment for schemes with parameters, a name for the others (urlparse)
     return not s.scheme and bool(s.path or s.netloc) and not s.path.startswith('//')
 
 
